@@ -3,6 +3,7 @@ package vm
 import (
 	"bytes"
 	"errors"
+	"math/big"
 
 	"github.com/hyperledger/burrow/binary"
 	"github.com/hyperledger/burrow/crypto"
@@ -70,6 +71,24 @@ type gasMemory struct {
 	engine.Memory
 	lastGasCost uint64
 	refund      uint64
+}
+
+// Read returns length bytes from offset. An access of zero length touches no memory: it returns nothing and,
+// unlike the wrapped memory (which grows to the offset whatever the length), leaves the memory's size alone -
+// the size functions above charge nothing for it.
+func (mem gasMemory) Read(offset, length *big.Int) []byte {
+	if length.Sign() == 0 {
+		return []byte{}
+	}
+	return mem.Memory.Read(offset, length)
+}
+
+// Write copies value into memory at offset; writing nothing touches no memory (see Read).
+func (mem gasMemory) Write(offset *big.Int, value []byte) {
+	if len(value) == 0 {
+		return
+	}
+	mem.Memory.Write(offset, value)
 }
 
 // memGasCost calculates the additional gas cost based on memory usage.
